@@ -10,9 +10,11 @@ import time
 from pathlib import Path
 
 VERIF = Path(__file__).resolve().parent.parent
-EVIDENCE = VERIF / "evidence"
-REPLAYS = VERIF / "replays"
 WORK = VERIF / ".work"
+# runs against a scratch copy of the repository (tools/try_mutant.sh) must not overwrite the evidence of /repo itself
+_SCRATCH = os.environ.get("VERIF_REPO_SRC") not in (None, "", "/repo/src")
+EVIDENCE = (WORK / "scratch_evidence") if _SCRATCH else (VERIF / "evidence")
+REPLAYS = (WORK / "scratch_replays") if _SCRATCH else (VERIF / "replays")
 KNOWN = VERIF / "known_findings.json"
 NCPU = min(16, os.cpu_count() or 1)
 
@@ -155,7 +157,7 @@ class Check:
                 self.cov.pop(k, None)
         if not self.cov["samples"]:
             self.cov["samples"] = ["(no sample recorded)"]
-        EVIDENCE.mkdir(exist_ok=True)
+        EVIDENCE.mkdir(parents=True, exist_ok=True)
         (EVIDENCE / f"{self.pid}.json").write_text(json.dumps(ev, ensure_ascii=False, indent=1, default=str), encoding="utf-8")
         shutil.rmtree(self.work, ignore_errors=True)
         for ln in lines:
